@@ -320,6 +320,15 @@ def run(ctx):
         fmt_case(round(rng.uniform(-1e6, 1e6), rng.randint(0, 6)))
     for v in [True, False, 0, -0.0, 0.0, 1e16, 1e-5, 1e22, 5e-324, 1.7976931348623157e308, 0.1, 1 / 3]:
         fmt_case(v)
+    # short mantissas: repr() writes them without a decimal point once an exponent is needed ("1e+16", "-5e-07"),
+    # which is where the text of a float and the text of an integer with an exponent meet; both signs, both
+    # exponent signs, around the two thresholds of repr (1e16, 1e-4) and far from them
+    for m in (1, 2, 5, 9, 25, 125, 1.5):
+        for k in list(range(-12, 26)) + [-300, -100, -30, 30, 100, 300]:
+            x = float("%se%d" % (m, k))
+            for v in (x, -x):
+                if math.isfinite(v):
+                    fmt_case(v)
 
 
 def search(ctx):
